@@ -135,12 +135,16 @@ def rand_result(r):
         pack = list(range(52))
         r.shuffle(pack)
         peek_at = r.randrange(0, 14) if r.random() < 0.4 else -1
+        recorded = []            # what was recorded, kept by the driver itself
         for k in range(ntr):
+            recorded.append({'leader': None, 'cards': pack[4 * k:4 * k + 4]})
             if k == peek_at:
                 # somebody looks at the history while the board is being played
                 # (a progress display, a checkpoint)
                 _ = len(play.history), [t.cards for t in play.history]
-            play.record(k + 1, TH(Player(r.randrange(4) + 1),
+            ld = r.randrange(4)
+            recorded[-1]['leader'] = ld
+            play.record(k + 1, TH(Player(ld + 1),
                                   tuple(card(c) for c in pack[4 * k:4 * k + 4])))
         taken = r.randrange(0, 14)
     scoring = r.choice(list(Scoring))
@@ -160,8 +164,7 @@ def rand_result(r):
                         'xx': bool(contract.xx), 'vul': contract.vul.value - 1,
                         'decl': NOSEAT if contract.declarer is None else contract.declarer.value - 1},
            'play': NONE if play is None else
-           {'v': [{'leader': t.leader.value - 1, 'cards': [cnum(c) for c in t.cards]}
-                  for t in play.history]},
+           {'v': [{'leader': t['leader'], 'cards': list(t['cards'])} for t in recorded]},
            'taken': NONE if taken is None else {'v': taken},
            'scoring': scoring.value, 'scores': [scores[Pair.NS], scores[Pair.EW]],
            'dda': proj_dda(dda)}
